@@ -60,6 +60,7 @@ static vf::Verdicts eval(const Spec &s, vf::Ctx &ctx) {
   vf::Verdicts out;
   ColoquinteParameters params = makeParams(s);
   if (!paramsAccepted(params)) { ctx.count("skipped_rejected_params"); return out; }
+  if (!inDomain(s)) { ctx.count("skipped_out_of_domain"); return out; }
   Circuit c = build(s);
   Snapshot before = snapshot(c);
   int rh = rowHeightOf(c);
@@ -127,7 +128,7 @@ static vf::Verdicts eval(const Spec &s, vf::Ctx &ctx) {
 
 int main(int argc, char **argv) {
   vf::Opts o = vf::parseOpts(argc, argv);
-  gThorough = o.thorough();
+  gThorough = o.thorough() && o.pass != "san";  // the secondary sanitizer pass of the thorough tier uses the quick alphabet
   vf::Check<Spec> c;
   c.property = "C01";
   c.level = "exploration";
